@@ -15,6 +15,7 @@ import (
 	"os/signal"
 	"strings"
 	"sync"
+	"time"
 
 	"verif/harness/hk"
 
@@ -108,8 +109,10 @@ type scriptFrame struct {
 }
 
 type script struct {
-	K      int           `json:"k"`
-	Frames []scriptFrame `json:"frames"`
+	K       int           `json:"k"`
+	Frames  []scriptFrame `json:"frames"`
+	Frames2 []scriptFrame `json:"frames2"` // written once GoFile exists
+	GoFile  string        `json:"gofile"`
 }
 
 func frameJSON(f scriptFrame) string {
@@ -145,6 +148,21 @@ func childScript() {
 							out.WriteString(frameJSON(f) + "\n")
 						}
 						out.Flush()
+						if len(sc.Frames2) > 0 {
+							go func() {
+								deadline := time.Now().Add(30 * time.Second)
+								for time.Now().Before(deadline) {
+									if _, err := os.Stat(sc.GoFile); err == nil {
+										break
+									}
+									time.Sleep(time.Millisecond)
+								}
+								for _, f := range sc.Frames2 {
+									out.WriteString(frameJSON(f) + "\n")
+								}
+								out.Flush()
+							}()
+						}
 					}
 				}
 			}
